@@ -12,6 +12,9 @@ import (
 // bareReturns: return statements are rendered without a value (the compiler has a separate path for them)
 var bareReturns bool
 
+// lexicalTry: every function literal of the script is written inside a try statement of the main script
+var lexicalTry bool
+
 func renderSkel(b *strings.Builder, s *Sexp, indent string, loopDepth *int) {
 	switch s.Head() {
 	case "log":
@@ -76,12 +79,33 @@ func skelScript(fns []*Sexp) string {
 	b.WriteString("R := func(x) { log = append(log, [\"r\", x]) }\n")
 	b.WriteString("C := func(e) { log = append(log, [\"c\", string(e)]) }\n")
 	for i, fn := range fns {
-		fmt.Fprintf(&b, "f%d := func() {\n", i)
+		if lexicalTry {
+			// the function literal is written inside the try, catch or finally block of a try statement of the
+			// main script (where a function is written makes no difference to what it does)
+			fmt.Fprintf(&b, "var f%d\n", i)
+			switch i % 3 {
+			case 0:
+				fmt.Fprintf(&b, "try {\nf%d = func() {\n", i)
+			case 1:
+				fmt.Fprintf(&b, "try { throw \"w\" } catch {\nf%d = func() {\n", i)
+			default:
+				fmt.Fprintf(&b, "try { } finally {\nf%d = func() {\n", i)
+			}
+		} else {
+			fmt.Fprintf(&b, "f%d := func() {\n", i)
+		}
 		depth := 0
 		for _, s := range fn.List[1:] {
 			renderSkel(&b, s, "  ", &depth)
 		}
 		b.WriteString("}\n")
+		if lexicalTry {
+			if i%3 == 0 {
+				b.WriteString("} finally { }\n")
+			} else {
+				b.WriteString("}\n")
+			}
+		}
 	}
 	fmt.Fprintf(&b, "res := undefined\ntry { res = [\"ret\", f%d()] } catch e { res = [\"err\", string(e)] }\nreturn [res, log]\n", len(fns)-1)
 	return b.String()
@@ -99,8 +123,9 @@ func atomOfErrString(s string) string {
 
 func runC03(kind string, args []*Sexp) *Sexp {
 	bareReturns = kind == "skelvmb"
+	lexicalTry = kind == "skelvmt"
 	src := skelScript(args)
-	bareReturns = false
+	bareReturns, lexicalTry = false, false
 	if kind == "skelsrc" {
 		return A(strings.ReplaceAll(strings.ReplaceAll(src, "\n", "\\n"), " ", "_"))
 	}
